@@ -563,89 +563,70 @@ macro_rules! impl_nio_read_iovec {
                         $iovcnt.try_into().expect("overflow"),
                     )
                 };
-                let mut length = 0;
+                let total = vec.iter().map(|iovec| iovec.iov_len).sum::<usize>();
                 let mut received = 0usize;
-                let mut r = -1;
-                let mut index = 0;
-                for iovec in &vec {
-                    let stage = length;
-                    let mut offset = received.saturating_sub(stage);
-                    length += iovec.iov_len;
-                    if received > length {
-                        index += 1;
+                // a zero-length request transfers nothing and is not an error
+                let mut r = if 0 == total { 0 } else { -1 };
+                while received < total && left_time > 0 {
+                    // only hand down what has not been filled yet
+                    let mut arg = Vec::new();
+                    let mut skip = received;
+                    for iovec in &vec {
+                        if skip >= iovec.iov_len {
+                            skip -= iovec.iov_len;
+                            continue;
+                        }
+                        arg.push(libc::iovec {
+                            iov_base: (iovec.iov_base as usize + skip) as *mut std::ffi::c_void,
+                            iov_len: iovec.iov_len - skip,
+                        });
+                        skip = 0;
+                    }
+                    r = self.inner.$syscall(
+                        fn_ptr,
+                        $fd,
+                        arg.as_ptr(),
+                        std::ffi::c_int::try_from(arg.len()).unwrap_or_else(|_| {
+                            panic!("{} iovcnt overflow", $crate::common::constants::SyscallName::$syscall)
+                        }),
+                        $($arg, )*
+                    );
+                    if r == 0 {
+                        break;
+                    } else if r != -1 {
+                        $crate::syscall::reset_errno();
+                        received += libc::size_t::try_from(r).expect("r overflow");
+                        // try to fill the rest without blocking
                         continue;
                     }
-                    let mut arg = Vec::new();
-                    for i in vec.iter().skip(index) {
-                        arg.push(*i);
-                    }
-                    while received < length && left_time > 0 {
-                        // Assuming iov_len is 4, but only 1 is read, at this point we should continue trying to fill the current iovec
-                        if 0 != offset {
-                            arg[0] = libc::iovec {
-                                iov_base: (arg[0].iov_base as usize + offset) as *mut std::ffi::c_void,
-                                iov_len: arg[0].iov_len - offset,
-                            };
+                    let error_kind = std::io::Error::last_os_error().kind();
+                    if error_kind == std::io::ErrorKind::WouldBlock {
+                        if received > 0 {
+                            break;
                         }
-                        r = self.inner.$syscall(
-                            fn_ptr,
+                        //wait read event
+                        left_time = start_time
+                            .saturating_add($crate::syscall::recv_time_limit($fd))
+                            .saturating_sub($crate::common::now());
+                        let wait_time = std::time::Duration::from_nanos(left_time)
+                            .min($crate::common::constants::SLICE);
+                        if $crate::net::EventLoops::wait_read_event(
                             $fd,
-                            arg.as_ptr(),
-                            std::ffi::c_int::try_from(arg.len()).unwrap_or_else(|_| {
-                                panic!("{} iovcnt overflow", $crate::common::constants::SyscallName::$syscall)
-                            }),
-                            $($arg, )*
-                        );
-                        if r == 0 {
-                            r = received.try_into().expect("received overflow");
-                            std::mem::forget(vec);
-                            if blocking {
-                                $crate::syscall::set_blocking($fd);
-                            }
-                            return r;
-                        } else if r != -1 {
-                            $crate::syscall::reset_errno();
-                            received += libc::size_t::try_from(r).expect("r overflow");
-                            if received >= length {
-                                r = received.try_into().expect("received overflow");
-                                break;
-                            }
-                            offset = received.saturating_sub(stage);
+                            Some(wait_time)
+                        ).is_err() {
+                            break;
                         }
-                        let error_kind = std::io::Error::last_os_error().kind();
-                        if error_kind == std::io::ErrorKind::WouldBlock {
-                            //wait read event
-                            left_time = start_time
-                                .saturating_add($crate::syscall::recv_time_limit($fd))
-                                .saturating_sub($crate::common::now());
-                            let wait_time = std::time::Duration::from_nanos(left_time)
-                                .min($crate::common::constants::SLICE);
-                            if $crate::net::EventLoops::wait_read_event(
-                                $fd,
-                                Some(wait_time)
-                            ).is_err() {
-                                r = received.try_into().expect("received overflow");
-                                std::mem::forget(vec);
-                                if blocking {
-                                    $crate::syscall::set_blocking($fd);
-                                }
-                                return r;
-                            }
-                        } else if error_kind != std::io::ErrorKind::Interrupted {
-                            std::mem::forget(vec);
-                            if blocking {
-                                $crate::syscall::set_blocking($fd);
-                            }
-                            return r;
-                        }
-                    }
-                    if received >= length {
-                        index += 1;
+                    } else if error_kind != std::io::ErrorKind::Interrupted {
+                        break;
                     }
                 }
                 std::mem::forget(vec);
                 if blocking {
                     $crate::syscall::set_blocking($fd);
+                }
+                if received > 0 {
+                    // report every byte that was moved
+                    r = received.try_into().expect("received overflow");
                 }
                 r
             }
@@ -789,81 +770,71 @@ macro_rules! impl_nio_write_iovec {
                         $iovcnt.try_into().expect("overflow"),
                     )
                 };
-                let mut length = 0;
+                let total = vec.iter().map(|iovec| iovec.iov_len).sum::<usize>();
                 let mut sent = 0usize;
-                let mut r = -1;
-                let mut index = 0;
-                for iovec in &vec {
-                    let stage = length;
-                    let mut offset = sent.saturating_sub(stage);
-                    length += iovec.iov_len;
-                    if sent > length {
-                        index += 1;
+                // a zero-length request transfers nothing and is not an error
+                let mut r = if 0 == total { 0 } else { -1 };
+                while sent < total && left_time > 0 {
+                    // only hand down what has not been sent yet
+                    let mut arg = Vec::new();
+                    let mut skip = sent;
+                    for iovec in &vec {
+                        if skip >= iovec.iov_len {
+                            skip -= iovec.iov_len;
+                            continue;
+                        }
+                        arg.push(libc::iovec {
+                            iov_base: (iovec.iov_base as usize + skip) as *mut std::ffi::c_void,
+                            iov_len: iovec.iov_len - skip,
+                        });
+                        skip = 0;
+                    }
+                    r = self.inner.$syscall(
+                        fn_ptr,
+                        $fd,
+                        arg.as_ptr(),
+                        std::ffi::c_int::try_from(arg.len()).unwrap_or_else(|_| {
+                            panic!("{} iovcnt overflow", $crate::common::constants::SyscallName::$syscall)
+                        }),
+                        $($arg, )*
+                    );
+                    if r != -1 {
+                        $crate::syscall::reset_errno();
+                        if r == 0 {
+                            break;
+                        }
+                        sent += libc::size_t::try_from(r).expect("r overflow");
+                        // try to send the rest without blocking
                         continue;
                     }
-                    let mut arg = Vec::new();
-                    for i in vec.iter().skip(index) {
-                        arg.push(*i);
-                    }
-                    while sent < length && left_time > 0 {
-                        if 0 != offset {
-                            arg[0] = libc::iovec {
-                                iov_base: (arg[0].iov_base as usize + offset) as *mut std::ffi::c_void,
-                                iov_len: arg[0].iov_len - offset,
-                            };
+                    let error_kind = std::io::Error::last_os_error().kind();
+                    if error_kind == std::io::ErrorKind::WouldBlock {
+                        if sent > 0 {
+                            break;
                         }
-                        r = self.inner.$syscall(
-                            fn_ptr,
+                        //wait write event
+                        left_time = start_time
+                            .saturating_add($crate::syscall::send_time_limit($fd))
+                            .saturating_sub($crate::common::now());
+                        let wait_time = std::time::Duration::from_nanos(left_time)
+                            .min($crate::common::constants::SLICE);
+                        if $crate::net::EventLoops::wait_write_event(
                             $fd,
-                            arg.as_ptr(),
-                            std::ffi::c_int::try_from(arg.len()).unwrap_or_else(|_| {
-                                panic!("{} iovcnt overflow", $crate::common::constants::SyscallName::$syscall)
-                            }),
-                            $($arg, )*
-                        );
-                        if r != -1 {
-                            $crate::syscall::reset_errno();
-                            sent += libc::size_t::try_from(r).expect("r overflow");
-                            if sent >= length {
-                                r = sent.try_into().expect("sent overflow");
-                                break;
-                            }
-                            offset = sent.saturating_sub(stage);
+                            Some(wait_time)
+                        ).is_err() {
+                            break;
                         }
-                        let error_kind = std::io::Error::last_os_error().kind();
-                        if error_kind == std::io::ErrorKind::WouldBlock {
-                            //wait write event
-                            left_time = start_time
-                                .saturating_add($crate::syscall::send_time_limit($fd))
-                                .saturating_sub($crate::common::now());
-                            let wait_time = std::time::Duration::from_nanos(left_time)
-                                .min($crate::common::constants::SLICE);
-                            if $crate::net::EventLoops::wait_write_event(
-                                $fd,
-                                Some(wait_time)
-                            ).is_err() {
-                                r = sent.try_into().expect("sent overflow");
-                                std::mem::forget(vec);
-                                if blocking {
-                                    $crate::syscall::set_blocking($fd);
-                                }
-                                return r;
-                            }
-                        } else if error_kind != std::io::ErrorKind::Interrupted {
-                            std::mem::forget(vec);
-                            if blocking {
-                                $crate::syscall::set_blocking($fd);
-                            }
-                            return r;
-                        }
-                    }
-                    if sent >= length {
-                        index += 1;
+                    } else if error_kind != std::io::ErrorKind::Interrupted {
+                        break;
                     }
                 }
                 std::mem::forget(vec);
                 if blocking {
                     $crate::syscall::set_blocking($fd);
+                }
+                if sent > 0 {
+                    // report every byte that was moved
+                    r = sent.try_into().expect("sent overflow");
                 }
                 r
             }
